@@ -1,8 +1,13 @@
 """C31 — Merkle hashes (crypto/hash.py).
 
-Two streams over the same cases, both through the three PUBLIC functions (`operation_list_hash`,
+Three streams over the same cases, all through the three PUBLIC functions (`operation_list_hash`,
 `operation_list_list_hash`, `block_payload_hash`; base58 strings in, base58 string out):
 
+* end to end: the unpatched functions against the Lean model of the WHOLE call (`Impl.MerkleText`: base58_decode of
+  every item, the array algorithm with the executable Lean BLAKE2b-256, base58_encode with the executable double SHA-256):
+  the driver is given the same strings and must print the same `Lo…` / `LLo…` / `vh…` text (or the same exception
+  class); a few extra string-level cases (corrupted item, item of another kind or length, bad predecessor) go through
+  this stream only;
 * correspondence: `blake2b` inside `pytezos.crypto.hash` is replaced by a cheap deterministic 32-byte function that
   the Lean driver implements too (`toyHash`), so the real control flow and the Lean mirror build the same tree; the
   results (base58-decoded with the `base58` package, not with pytezos) are diffed;
@@ -164,6 +169,51 @@ def ref_impl(case):
     return ref_payload(case[1], case[2], case[3])
 
 
+def strs_of(case):
+    """the arguments of the public call, as the strings pytezos is given"""
+    kind = case[0]
+    if kind == 'L':
+        return ('L', [b58('o', x) for x in case[1]])
+    if kind == 'LL':
+        return ('LL', [[b58('o', x) for x in g] for g in case[1]])
+    return ('P', b58('B', case[1]), case[2], [b58('o', x) for x in case[3]])
+
+
+def call_strs(sc):
+    """one public call on strings -> 'ok <text>' | 'err ValueError' | 'err OverflowError'"""
+    from pytezos.crypto import hash as ph
+    try:
+        if sc[0] == 'L':
+            return 'ok ' + ph.operation_list_hash(sc[1])
+        if sc[0] == 'LL':
+            return 'ok ' + ph.operation_list_list_hash(sc[1])
+        return 'ok ' + ph.block_payload_hash(sc[1], sc[2], sc[3])
+    except OverflowError:
+        return 'err OverflowError'
+    except ValueError:
+        return 'err ValueError'
+
+
+def to_real_line(sc):
+    hx = lambda t: t.encode('latin1').hex() if t else '-'
+    if sc[0] == 'L':
+        return ' '.join(['RL'] + [hx(x) for x in sc[1]])
+    if sc[0] == 'LL':
+        toks = ['RLL', str(len(sc[1]))]
+        for g in sc[1]:
+            toks.append(str(len(g)))
+            toks += [hx(x) for x in g]
+        return ' '.join(toks)
+    return ' '.join(['RP', hx(sc[1]), str(sc[2])] + [hx(x) for x in sc[3]])
+
+
+def model_text(out):
+    """driver output `ok <hex of text>` -> `ok <text>`"""
+    if out.startswith('ok '):
+        return 'ok ' + bytes.fromhex(out[3:]).decode('latin1')
+    return out
+
+
 def to_line(case):
     hx = lambda b: b.hex() if b else '-'
     kind = case[0]
@@ -224,11 +274,17 @@ def run(ctx):
     ctx.extra['rule'] = ('operation_list_hash: every length 0..300 with fresh random 32-byte items (thorough: three passes, one with '
                          'repeated items, plus lengths up to 1100 around powers of two); operation_list_list_hash: random shapes incl. empty '
                          'groups; block_payload_hash: random predecessor, rounds incl. 0, 2^32-1, 2^32 and -1 (OverflowError). '
+                         'Every case runs three ways: real code vs independent reference (oracle), real code with a toy hash vs the raw Lean '
+                         'mirror, unpatched real code vs the end-to-end Lean model with the Lean BLAKE2b/SHA-256 (full text compared). '
+                         'String-level extras (end-to-end stream only): a corrupted item, items of another kind (block hash, tz1 address = '
+                         '20-byte leaf), a corrupted predecessor, negative round with a bad predecessor. '
                          'non-trivial = at least 3 items somewhere (padding and/or the odd-count copy step are exercised)')
     ctx.assumptions += [
-        'BLAKE2b-256 is abstract in the theorems (arbitrary H); the correspondence run substitutes the toy hash for blake2b inside '
-        'pytezos.crypto.hash, the oracle run uses the real hashlib.blake2b against an independent recursive implementation',
-        'base58 encode/decode of the items and results is C09, not modelled here (checked by the oracle stream with the base58 package)',
+        'BLAKE2b-256 is abstract in the general theorems (arbitrary H); the `…_concrete` corollaries and the end-to-end stream use the '
+        'executable Lean BLAKE2b / SHA-256 (Core/Hash*.lean: tied to hashlib by that stream and to recorded chain hashes by kernel-evaluated '
+        'examples, nothing is proved about the hash functions beyond the digest length); the toy-hash stream substitutes a toy hash for '
+        'blake2b inside pytezos.crypto.hash, the oracle run uses hashlib.blake2b against an independent recursive implementation',
+        'base58 encode/decode of the items and results is the C09 mirror (Impl.Encoding), used here per row (o, B, Lo, LLo, vh)',
     ]
 
     # reference self-check against recorded chain data
@@ -265,7 +321,44 @@ def run(ctx):
     for pred, rnd, ops, _ in CHAIN_PAYLOADS:
         cases.append(('P', unb58('B', pred), rnd, [unb58('o', x) for x in ops]))
 
-    model = ctx.model([to_line(c) for c in cases])
+    # string-level extras for the end-to-end stream (exceptions of base58_decode, leaves that are not operation hashes)
+    import base58
+    good = [b58('o', rng.bytes_(32)) for _ in range(5)]
+    bad_item = good[1][:-1] + ('1' if good[1][-1] != '1' else '2')
+    other_kind = b58('B', rng.bytes_(32))
+    short_leaf = base58.b58encode_check(bytes([6, 161, 159]) + rng.bytes_(20)).decode()
+    pred = b58('B', rng.bytes_(32))
+    extras = [
+        ('L', [good[0], bad_item, good[2]]), ('L', [bad_item]), ('L', [good[0], 'not base58 0OIl']), ('L', [good[0], '']),
+        ('L', [other_kind]), ('L', [good[0], other_kind, good[2]]), ('L', [short_leaf, good[0], short_leaf]),
+        ('L', [good[0] + ' ']), ('L', [good[0], good[0][:-1]]),
+        ('LL', [[good[0]], [bad_item], [good[1]]]), ('LL', [[good[0], other_kind], [], [short_leaf]]),
+        ('P', pred[:-1] + ('1' if pred[-1] != '1' else '2'), 0, good[:2]), ('P', pred, 1, [bad_item]), ('P', good[0], 3, good[:3]),
+        ('P', short_leaf, 2 ** 32, []), ('P', 'x', -1, []), ('P', pred, 2 ** 32, [bad_item]), ('P', pred, -1, [bad_item]),
+    ]
+    # which cases also go through the end-to-end model (Lean BLAKE2b + SHA-256 cost about 0.3 ms per item even compiled):
+    # thorough = all; quick = every list-of-lists / payload case, every list length up to 64, the lengths around 128 and 256
+    # and a random sample of the other lengths (the oracle and the toy-hash stream always see every case)
+    if quick:
+        big = [i for i, c in enumerate(cases) if c[0] == 'L' and len(c[1]) > 64]
+        keep = set(rng.sample(big, 12)) | {i for i in big if len(cases[i][1]) in (127, 128, 129, 255, 256, 257, 300)}
+        e2e = [i for i, c in enumerate(cases) if c[0] != 'L' or len(c[1]) <= 64 or i in keep]
+    else:
+        e2e = list(range(len(cases)))
+    str_cases = [strs_of(cases[i]) for i in e2e] + extras
+    toy_lines = [to_line(c) for c in cases]
+    out = ctx.model(toy_lines + [to_real_line(sc) for sc in str_cases])
+    model = out[:len(toy_lines)] if out is not None else None
+    model_real = dict(zip(e2e, [model_text(o) for o in out[len(toy_lines):]])) if out is not None else None
+    ctx.extra['end_to_end_cases'] = len(str_cases)
+    for i, sc in enumerate(extras):
+        got = call_strs(sc)
+        d = {'fn': {'L': 'operation_list_hash', 'LL': 'operation_list_list_hash', 'P': 'block_payload_hash'}[sc[0]], 'strings': list(sc[1:])}
+        ctx.case(d, nontrivial=False)
+        ctx.count('string-level-outcome', got.split(' ')[0] + ('' if got.startswith('ok') else ':' + got[4:]))
+        m = model_text(out[len(toy_lines) + len(e2e) + i]) if out is not None else None
+        if m is not None and got != m:
+            ctx.mismatch('end-to-end-strings', d, got, m)
 
     # stream 1: toy hash inside the real control flow
     from pytezos.crypto import hash as ph
@@ -302,3 +395,9 @@ def run(ctx):
             dd = dict(d)
             dd.pop('items', None)
             ctx.mismatch('toy-hash-tree', dd, toy_out[idx], model[idx])
+        # stream 3: the same call, unpatched, against the end-to-end Lean model (Lean BLAKE2b + SHA-256): full text
+        got_text = 'err OverflowError' if got == 'error' else 'ok ' + got
+        if model_real is not None and idx in model_real and got_text != model_real[idx]:
+            dd = dict(d)
+            dd.pop('items', None)
+            ctx.mismatch('end-to-end-text', dd, got_text, model_real[idx])
